@@ -22,6 +22,7 @@ from .ops import (coerce, to_v, truthy, is_none, val_eq, tuple_get, rec_get, rec
                   seq_slice, seq_concat, seq_index, list_append, list_literal, fresh_seq, wf_assumptions, unwrap_opt)
 
 REC_DECLS: dict = {}
+REC_AXIOMS: dict = {}
 SPEC_MEMO: dict = {}
 # class tables -------------------------------------------------------------------------------
 REF_BASE: dict = {}        # short class name -> short base-class name (for shared heap fields)
@@ -45,6 +46,25 @@ def has_field(cls: str, field: str) -> bool:
         return True
     except KeyError:
         return False
+
+
+def mentions(expr, consts) -> bool:
+    ids = {c.get_id() for c in consts}
+    seen = set()
+    stack = [expr]
+    while stack:
+        e = stack.pop()
+        i = e.get_id()
+        if i in seen:
+            continue
+        seen.add(i)
+        if i in ids:
+            return True
+        if z3.is_quantifier(e):
+            stack.append(e.body())
+        else:
+            stack.extend(e.children())
+    return False
 
 
 def flatten_and(g):
@@ -212,13 +232,36 @@ class Executor:
             return self.eval(st, e.body)
         if z3.is_false(z3.simplify(c)):
             return self.eval(st, e.orelse)
-        a = self.eval(st, e.body)
-        b = self.eval(st, e.orelse)
-        a, b = self.unify([a, b]) if (isinstance(a, V) or isinstance(b, V)) else (to_v(a), to_v(b))
+        a = self.eval_guarded(st, e.body, c)
+        b = self.eval_guarded(st, e.orelse, z3.Not(c))
+        a, b = self.unify_pair(a, b) if (isinstance(a, V) or isinstance(b, V)) else (to_v(a), to_v(b))
         return V(a.ty, z3.If(c, a.z, b.z))
 
+    def eval_guarded(self, st, node, guard):
+        """Evaluate `node` under an extra path guard (short-circuit operand / conditional branch): obligations
+        emitted inside carry the guard; assumptions made inside are kept as guard => assumption."""
+        if guard is None or z3.is_true(guard):
+            return self.eval(st, node)
+        st2 = st.fork()
+        st2.assume(guard)
+        n = len(st2.pc)
+        v = self.eval(st2, node)
+        for z in st2.pc[n:]:
+            st.assume(z3.Implies(guard, z))
+        for k, a in st2.heap.items():
+            if k not in st.heap:
+                st.heap[k] = a
+        return v
+
     def e_BoolOp(self, st, e):
-        vals = [self.eval(st, x) for x in e.values]
+        vals = []
+        guard = None
+        for x in e.values:
+            v = self.eval_guarded(st, x, guard)
+            vals.append(v)
+            t = truthy(v)
+            g = t if isinstance(e.op, ast.And) else z3.Not(t)
+            guard = g if guard is None else z3.And(guard, g)
         if all(isinstance(v, V) and v.ty == BOOL for v in vals):
             return V(BOOL, (z3.And if isinstance(e.op, ast.And) else z3.Or)(*[v.z for v in vals]))
         # value-returning and/or:  a or b  ==  a if a else b
@@ -546,7 +589,36 @@ class Executor:
         return PyObj(("genexp", e, dict(st.env)))
 
     # comprehension [f(x) for x in xs] (map only) -> fresh list defined pointwise
+    def flatten_comp(self, st, e):
+        """[x for xs in xss for x in xs] (no filters, identity element): fresh list with index maps both ways."""
+        g1, g2 = e.generators
+        ok = (not g1.ifs and not g2.ifs and isinstance(g1.target, ast.Name) and isinstance(g2.target, ast.Name)
+              and isinstance(g2.iter, ast.Name) and g2.iter.id == g1.target.id
+              and isinstance(e.elt, ast.Name) and e.elt.id == g2.target.id)
+        if not ok:
+            raise Unsupported("nested comprehension (only the flattening form is supported)")
+        outer = self.eval(st, g1.iter)
+        if not (isinstance(outer, V) and isinstance(outer.ty, TList) and isinstance(outer.ty.elem, TList)):
+            raise Unsupported("flatten of non list-of-lists")
+        it = outer.ty.elem
+        r = fresh_seq(it, st, "flat")
+        fa = z3.Function(T.fresh_name("fa"), z3.IntSort(), z3.IntSort())
+        fb = z3.Function(T.fresh_name("fb"), z3.IntSort(), z3.IntSort())
+        fi = z3.Function(T.fresh_name("fidx"), z3.IntSort(), z3.IntSort(), z3.IntSort())
+        j, a, b = z3.Int(T.fresh_name("qj")), z3.Int(T.fresh_name("qa")), z3.Int(T.fresh_name("qb"))
+        n = seq_len(r)
+        inner = lambda ai: V(it, z3.Select(seq_arr(outer), ai))
+        st.assume(forall([j], z3.Implies(z3.And(0 <= j, j < n), z3.And(
+            0 <= fa(j), fa(j) < seq_len(outer), 0 <= fb(j), fb(j) < seq_len(inner(fa(j))),
+            z3.Select(seq_arr(r), j) == z3.Select(seq_arr(inner(fa(j))), fb(j)), fi(fa(j), fb(j)) == j))))
+        st.assume(forall([a, b], z3.Implies(z3.And(0 <= a, a < seq_len(outer), 0 <= b, b < seq_len(inner(a))), z3.And(
+            0 <= fi(a, b), fi(a, b) < n, fa(fi(a, b)) == a, fb(fi(a, b)) == b,
+            z3.Select(seq_arr(r), fi(a, b)) == z3.Select(seq_arr(inner(a)), b)))))
+        return r
+
     def comprehension(self, st, e):
+        if len(e.generators) == 2:
+            return self.flatten_comp(st, e)
         if len(e.generators) != 1:
             raise Unsupported("nested comprehension")
         g = e.generators[0]
@@ -676,10 +748,18 @@ class Executor:
         if which is sum:
             raise Unsupported("sum(...) -- use a spec function")
         body = truthy(self.eval(st2, g.elt))
+        # facts introduced while evaluating the body (contract ensures of pure calls, definitions of fresh
+        # slices...) may mention the bound variables: they are kept *inside* the quantifier
+        extras = []
+        for z in st2.pc[len(st.pc):]:
+            if mentions(z, qvars):
+                extras.append(z)
+            else:
+                st.assume(z)   # independent of the bound variables: a fact of the enclosing state
         guard = z3.And(*guards)
         if which is all:
-            return V(BOOL, forall(qvars, z3.Implies(guard, body)))
-        return V(BOOL, exists(qvars, z3.And(guard, body)))
+            return V(BOOL, forall(qvars, z3.Implies(z3.And(guard, *extras) if extras else guard, body)))
+        return V(BOOL, exists(qvars, z3.And(guard, *extras, body) if extras else z3.And(guard, body)))
 
     # ------------------------------------------------------------------ call dispatch
     def apply(self, st, f, args, kwargs, node, stmt_level):
@@ -821,6 +901,13 @@ class Executor:
     def sorted(self, st, xs, key):
         if isinstance(xs, V) and isinstance(xs.ty, TOpt):
             xs = unwrap_opt(xs)
+        if isinstance(xs, PyObj) and isinstance(xs.o, tuple) and xs.o[0] == "genexp":
+            saved = st.env
+            st.env = dict(xs.o[2])
+            try:
+                xs = self.comprehension(st, ast.ListComp(elt=xs.o[1].elt, generators=xs.o[1].generators))
+            finally:
+                st.env = saved
         if not (isinstance(xs, V) and isinstance(xs.ty, TList)):
             raise Unsupported("sorted() of non-list")
         r = fresh_seq(xs.ty, st, "sorted")
@@ -899,7 +986,29 @@ class Executor:
             rty = ann["return"]
             if sp.name not in self.rec_decls:
                 self.rec_decls[sp.name] = z3.Function("uf_" + sp.name, *[t.sort() for t in ptys], rty.sort())
-            return V(rty, self.rec_decls[sp.name](*[coerce(a, t).z for a, t in zip(args, ptys)]))
+            cargs = [coerce(a, t) for a, t in zip(args, ptys)]
+            res = V(rty, self.rec_decls[sp.name](*[a.z for a in cargs]))
+            ax = getattr(sp, "axiom", None)
+            if ax is not None:
+                # definitional axiom, quantified over the arguments and triggered on the application
+                mk = ("axiom", sp.name)
+                if mk not in SPEC_MEMO:
+                    anode, aparams = contract_ast(ax)
+                    formals = [fresh(t, "ax_" + p) for p, t in zip(params, ptys)]
+                    app = self.rec_decls[sp.name](*[f.z for f in formals])
+                    env = dict(zip(aparams, formals + [V(rty, app)]))
+                    sub = State()
+                    sub.ghost = dict(st.ghost)
+                    saved = ops.MODE["bounded"]
+                    ops.MODE["bounded"] = None
+                    try:
+                        val = truthy(self.eval_fn_body(sub, ax, anode, env))
+                    finally:
+                        ops.MODE["bounded"] = saved
+                    body = z3.Implies(z3.And(*sub.pc), val) if sub.pc else val
+                    SPEC_MEMO[mk] = z3.ForAll([f.z for f in formals], body, patterns=[app])
+                st.assume(SPEC_MEMO[mk])
+            return res
         env = {}
         ann = fn.__annotations__
         for p, a in zip(params, args):
@@ -944,10 +1053,19 @@ class Executor:
                 body = coerce(self.eval_fn_body(st0, fn, node, env), rty)
             finally:
                 ops.MODE["bounded"] = saved
-            if st0.pc:
-                raise Unsupported(f"recursive spec {sp.name} body introduces assumptions")
+            # closed facts used by the body (axioms of uninterpreted specs, tx_len(empty) == 0): kept and
+            # assumed wherever the function is applied; anything mentioning the formals is quantified
+            closed = []
+            for z in st0.pc:
+                if mentions(z, formals):
+                    closed.append(z3.ForAll(formals, z))
+                else:
+                    closed.append(z)
+            REC_AXIOMS[sp.name] = closed
             z3.RecAddDefinition(f, formals, body.z)
         f = self.rec_decls[sp.name]
+        for z in REC_AXIOMS.get(sp.name, []):
+            st.assume(z)
         zs = [coerce(a, t).z for a, t in zip(args, ptys)]
         return V(rty, f(*zs))
 
